@@ -7,11 +7,13 @@ Every theorem quantifies over *all* histories (lists of calls of any length) unl
 
 * "whether cached tables of a composite system have been built, dropped or rebuilt" → (a) `cache_*`
 * "whatever datasets a loss function or algorithm object processed earlier" → (b) `loss_*`, `gen_*`, `fast_*`,
-  (c) `algo_*` — **false on the current tree** (DESIGN §5 D9, D10): the model mirrors the code, the `_partial`
-  theorems give the histories for which re-use equals fresh use, the `_fails` theorems are proved negation witnesses;
+  (c) `algo_*`. After the `fix:` commits the extended weights of the fast loss follow its weights, so the fast loss
+  behaves exactly like the generic one. Still **false on the tree**: the `identity` mode keeps the weights of an earlier
+  call (C13-F1, both losses) and the algorithm object keeps its first projection (D10): the `_partial` theorems give the
+  histories for which re-use equals fresh use, the `_fails` theorems are proved negation witnesses;
 * "global tolerance changes that are restored" → (d) `atol_*`
-* "no operation changes … its operands" → (e) `projEq_*` (the one routine of the anchored code that writes through
-  views of its argument, DESIGN §5 D5); the rest of that clause is observed on the implementation by snapshots.
+* "no operation changes … its operands" → (e) `projEq_arg_unchanged` (the routine that used to write through views of
+  its argument, repaired); the rest of that clause is observed on the implementation by snapshots.
 -/
 namespace QM.C13
 
@@ -82,12 +84,15 @@ theorem loss_weights_after (s : Loss A Q W) (c : Cfg A Q W) :
   simp only [configure_eq]
   cases c.mode <;> rfl
 
-/-- C13.b (D9 as it is): the extended weights of the fast loss after a call are a function of the **previous** state only
-— the weights installed by this call arrive after `_calc_extend_weight_matrix` has run. -/
-theorem fast_ext_from_previous_state (s : Loss A Q W) (c : Cfg A Q W) :
-    (configure s c).ext = match s.weights with | none => s.ext | some w => some w := by
+/-- C13.b `fast_ext_follows_weights`: after every call the extended weights of the fast loss are built from the weights
+the object now holds (they used to be those of the previous call). -/
+theorem fast_ext_follows_weights (s : Loss A Q W) (c : Cfg A Q W) :
+    (configure s c).ext = (configure s c).weights := by
   simp only [configure_eq]
-  cases s.weights <;> rfl
+
+/-- C13.b: hence the fast loss reads exactly what the generic loss reads. -/
+theorem fast_obs_eq_gen (s : Loss A Q W) (c : Cfg A Q W) : obsFast (configure s c) = obsGen (configure s c) := by
+  simp only [obsFast, obsGen, fast_ext_follows_weights]
 
 /-- histories in which no call installs weights -/
 def NoWeights (h : List (Cfg A Q W)) : Prop := ∀ d ∈ h, d.mode = .identity ∨ d.mode = .ignored
@@ -103,7 +108,7 @@ theorem lrun_noWeights (h : List (Cfg A Q W)) (hn : NoWeights h) :
       have hn' : NoWeights h := fun x hx => hn x (by simp [hx])
       apply ih hn' (configure s d)
       · rw [loss_weights_after]; rcases hd with hd | hd <;> simp [hd, hw]
-      · rw [fast_ext_from_previous_state]; simp [hw, he]
+      · rw [fast_ext_follows_weights, loss_weights_after]; rcases hd with hd | hd <;> simp [hd, hw]
 
 /-- C13.b `gen_reuse_refines_fresh` for a call that installs weights: with mode `custom` or an inverse-covariance
 mode the generic loss reads exactly what a fresh object would read, after **any** history. -/
@@ -122,24 +127,32 @@ theorem gen_reuse_refines_fresh_partial (h : List (Cfg A Q W)) (c : Cfg A Q W) (
   simp only [obsGen, configure_eq, this.1]
   cases c.mode <;> simp [Loss.fresh]
 
-/-- C13.b `fast_reuse_refines_fresh_partial`: the fast loss equals a fresh one when the history installed no weights.
-Missing (and false, see `fast_reuse_refines_fresh_fails`): any history containing a weight-installing call. -/
+/-- C13.b `fast_reuse_refines_fresh` for a call that installs weights (custom / inverse covariance): the fast loss reads
+what a fresh object would read, after **any** history. -/
+theorem fast_reuse_refines_fresh_of_mode (s : Loss A Q W) (c : Cfg A Q W)
+    (hm : c.mode = .custom ∨ c.mode = .invCov) :
+    obsFast (configure s c) = obsFast (configure Loss.fresh c) := by
+  rw [fast_obs_eq_gen, fast_obs_eq_gen]
+  exact gen_reuse_refines_fresh_of_mode s c hm
+
+/-- C13.b `fast_reuse_refines_fresh_partial`: … and for every configuration when the history installed no weights.
+Missing (and false, see `fast_reuse_refines_fresh_fails`): an `identity` call after a weight-installing call (C13-F1). -/
 theorem fast_reuse_refines_fresh_partial (h : List (Cfg A Q W)) (c : Cfg A Q W) (hn : NoWeights h) :
     obsFast (configure (lrun Loss.fresh h) c) = obsFast (configure Loss.fresh c) := by
-  have := lrun_noWeights h hn Loss.fresh rfl rfl
-  simp only [obsFast, configure_eq, this.1, this.2]
-  simp [Loss.fresh]
+  rw [fast_obs_eq_gen, fast_obs_eq_gen]
+  exact gen_reuse_refines_fresh_partial h c hn
 
-/-- C13.b (D9 as it is): a fresh fast loss evaluates its first dataset **unweighted**, whatever the mode. -/
-theorem fast_first_dataset_unweighted (c : Cfg A Q W) :
-    obsFast (configure Loss.fresh c) = (some c.matA, some c.q, none) := by
-  simp [obsFast, configure_eq, Loss.fresh]
+/-- C13.b: a fresh fast loss values its first dataset with the weights of that dataset's mode. -/
+theorem fast_first_dataset_weights (c : Cfg A Q W) :
+    obsFast (configure Loss.fresh c) = (some c.matA, some c.q,
+      match c.mode with | .custom => c.optWeights | .invCov => some c.dataW | _ => none) := by
+  simp only [obsFast, configure_eq, Loss.fresh]
+  cases c.mode <;> rfl
 
-/-- C13.b (D9 as it is): after an inverse-covariance dataset `c₁`, the next dataset `c₂` is evaluated with the weights of
-`c₁`'s data, after any earlier history. -/
-theorem fast_uses_previous_dataset_weights (s : Loss A Q W) (c₁ c₂ : Cfg A Q W) (h₁ : c₁.mode = .invCov) :
-    obsFast (configure (configure s c₁) c₂) = (some c₂.matA, some c₂.q, some c₁.dataW) := by
-  simp [obsFast, configure_eq, h₁]
+/-- C13.b: an inverse-covariance dataset is valued with the weights of its **own** data, whatever came before. -/
+theorem fast_uses_current_dataset_weights (s : Loss A Q W) (c : Cfg A Q W) (h : c.mode = .invCov) :
+    obsFast (configure s c) = (some c.matA, some c.q, some c.dataW) := by
+  simp [obsFast, configure_eq, h]
 
 end loss
 
@@ -151,8 +164,9 @@ def witnessCustom : Cfg (List (List Int) × List Int) (List Int) (List (List (Li
 def witnessIdentity : Cfg (List (List Int) × List Int) (List Int) (List (List (List Int))) :=
   { witnessCustom with mode := .identity, optWeights := none }
 
-/-- C13.b negation witness (concrete): `reuse_refines_fresh` is false for the fast loss — the second dataset
-(mode `identity`) is valued 9 by the re-used object (stale extended weights `diag(1,2)`) and 5 by a fresh one. -/
+/-- C13.b negation witness (concrete, C13-F1): `reuse_refines_fresh` is false for the fast loss — the second dataset
+(mode `identity`, which is `pass`) is valued 9 by the re-used object (the custom weights `diag(1,2)` of the first dataset
+stay, and the extended weights follow them) and 5 by a fresh one. -/
 theorem fast_reuse_refines_fresh_fails :
     ¬ ∀ (h : List (Cfg (List (List Int) × List Int) (List Int) (List (List (List Int)))))
         (c : Cfg (List (List Int) × List Int) (List Int) (List (List (List Int)))) (var : List Int),
@@ -176,7 +190,7 @@ theorem gen_reuse_refines_fresh_fails :
 /-- what the two objects compute on the witness -/
 example : valueFast 2 (configure (lrun Loss.fresh [witnessCustom]) witnessIdentity) [-1] = some 9
     ∧ valueFast 2 (configure Loss.fresh witnessIdentity) [-1] = some 5
-    ∧ valueFast 2 (configure Loss.fresh witnessCustom) [-1] = some 5      -- D9: custom weights ignored on first use
+    ∧ valueFast 2 (configure Loss.fresh witnessCustom) [-1] = some 9      -- custom weights applied on first use
     ∧ valueGen 2 (configure Loss.fresh witnessCustom) [-1] = some 9 := by decide
 
 /-- non-vacuity of the `_partial` hypotheses: a two-dataset history that installs no weights -/
@@ -283,31 +297,18 @@ example : Bal (1/10) (bracket (1/10) (1/2) [.read, .setBad] ++ [.read]) :=
 section projeq
 variable {K : Type} [Add K] [Mul K] [Sub K] [Zero K] [One K]
 
-/-- C13.e `projEq_arg_unchanged_partial`: with `on_para_eq_constraint=True` the routine works on a new array and its
-argument is untouched. Missing (and false, see `projEq_arg_unchanged_fails`): `on_para_eq_constraint=False`. -/
-theorem projEq_arg_unchanged_partial (n m : Nat) (invm : K) (var : List K) :
-    (projEqWithVar n m invm true var).2 = var := by
-  simp [projEqWithVar, varToHss]
-
-/-- C13.e (D5 as it is): without the flag the matrices are views of the argument, so after the call the argument array
-holds the projected matrices — i.e. exactly the returned variables. -/
-theorem projEq_alias_arg_becomes_result (n m : Nat) (invm : K) (var : List K) :
-    (projEqWithVar n m invm false var).2 = (projEqWithVar n m invm false var).1 := by
-  simp [projEqWithVar, varToHss, hssToVar]
+/-- C13.e `projEq_arg_unchanged`: the routine works on new arrays for both values of `on_para_eq_constraint`; its
+argument is untouched. -/
+theorem projEq_arg_unchanged (n m : Nat) (invm : K) (flag : Bool) (var : List K) :
+    (projEqWithVar n m invm flag var).2 = var := by
+  cases flag <;> simp [projEqWithVar, varToHss]
 
 end projeq
 
-/-- C13.e negation witness (concrete, one outcome of a 1×1 "system", integers): the argument `[3]` is `[1]` after the
-call. -/
-theorem projEq_arg_unchanged_fails :
-    ¬ ∀ (n m : Nat) (invm : Int) (var : List Int), (projEqWithVar n m invm false var).2 = var := by
-  intro hall
-  have := hall 1 1 1 [3]
-  revert this
-  decide
-
-/-- a 1-qubit shaped instance (n = dim² = 4, two outcomes) at `Rat`: the argument is overwritten by the result -/
-example : (projEqWithVar 2 2 ((1 : Rat) / 2) false [1, 2, 3, 4, 5, 6, 7, 8]).2 = [-3/2, -2, 3, 4, 5/2, 2, 7, 8] := by
+/-- a 1-qubit shaped instance (n = dim² = 4, two outcomes) at `Rat`: the result is the projected matrices, the argument
+stays as it was -/
+example : projEqWithVar 2 2 ((1 : Rat) / 2) false [1, 2, 3, 4, 5, 6, 7, 8]
+    = ([-3/2, -2, 3, 4, 5/2, 2, 7, 8], [1, 2, 3, 4, 5, 6, 7, 8]) := by
   decide +kernel
 
 end QM.C13
